@@ -29,8 +29,8 @@ def result_of(line):
 class CacheProp(SeqProp):
     kind = "lru"
     anchors = ["windpyutils/structures/caches.py", "windpyutils/structures/lists.py"]
-    quick_cases = 2000
-    thorough_cases = 8000
+    quick_cases = 5000
+    thorough_cases = 50000
     trusted_base = ["Lean 4.33.0 kernel", "axioms: propext, Classical.choice, Quot.sound (audited per theorem)",
                     "hand-written model Model/Cache.lean (dict + linked list + MutableMapping mixins written out) tied "
                     "to caches.py by this correspondence run",
